@@ -5,7 +5,7 @@ import ast as _ast
 
 from ..common import nshow, outer_field, paths, visible_methods
 from ..effects import Effects, fmt_eff
-from ..expr import C, SELF, strip_epochs
+from ..expr import C, SELF, rowform, strip_epochs
 from ..model import AnalysisError
 
 EXPL = ("Interprocedural write-effect (mod-set) analysis per concrete class: the effect set of every public query "
@@ -175,9 +175,12 @@ def check(prog, rep, tier):
                 for p in cps:
                     for e in p.events:
                         if e.kind == "setelem" and outer_field(e.cont) == fld:
-                            idx = strip_epochs(e.index)
-                            full = _full_range(prog, cn, fld, idx)
-                            if e.value != C(0) or not full:
+                            idx = strip_epochs(rowform(e.index))
+                            if idx[0] == "slc":
+                                zero, full = _zero_block(prog, cn, fld, idx, strip_epochs(e.value))
+                            else:
+                                zero, full = e.value == C(0), _full_range(prog, cn, fld, idx)
+                            if not zero or not full:
                                 rep.bad("C19.clear-initial", f"{cn}.clear", f"{fld}[{nshow(idx)}] = {nshow(e.value)}",
                                         f"clear() stores {nshow(e.value)} at {nshow(idx)}: not a zero over the full range of the array", e.where())
                                 good = False
@@ -226,11 +229,28 @@ def _same_initial(v, wants) -> bool:
     return False
 
 
+def _zero_block(prog, cn, fld, idx, value):
+    """self.F[:] = <typed zero array> * <length of F>  ->  (value is all zero, it covers exactly the array)"""
+    if idx != ("slc", C(None), C(None), C(None)):
+        return False, False
+    if not (value[0] == "nary" and value[1] == "*" and len(value[2]) == 2):
+        return False, False
+    arr = [x for x in value[2] if x[0] == "newb" and x[1] == "array"]
+    rest = [x for x in value[2] if not (x[0] == "newb" and x[1] == "array")]
+    if len(arr) != 1 or len(rest) != 1 or len(arr[0][3]) != 2:
+        return False, False
+    zero = arr[0][3][1] == ("lst", (C(0),))
+    n = rest[0]
+    full = (n[0] == "call" and n[1] == ("g", "len") and len(n[2]) == 1 and n[2][0][0] == "f" and n[2][0][1] == SELF and n[2][0][2] == fld) \
+        or n in alloc_lengths(prog, cn, fld)
+    return zero, full
+
+
 def _full_range(prog, cn, fld, idx) -> bool:
     """idx is the element/index of a loop over exactly the allocation domain of self.<fld>"""
-    if idx[0] == "ix" and outer_field(idx[2]) == fld:
-        return True  # enumerate(self.F)
-    if idx[0] != "it":
+    if idx[0] == "ix" and outer_field(idx[2]) == fld and idx[2][0] == "f":
+        return True  # enumerate(self.F) / range(len(self.F))
+    if idx[0] not in ("it", "ix"):
         return False
     dom = idx[2]
     if not (dom[0] == "call" and dom[1] == ("g", "range") and len(dom[2]) == 1):
